@@ -1,1 +1,248 @@
-/- C01: property theorems (not built yet). -/
+/-
+  C01 — Lazy cache coherence: no stale value after any set_value/evaluate history.
+
+  Model: Pycel/Model/Engine.lean (generic engine), Pycel/Model/EngineInst.lean (concrete formula language used by the
+  correspondence driver).  Lemmas: Pycel/Lemmas/Engine.lean.  Every theorem below holds for EVERY workbook
+  (`wb`, any number of nodes, any DAG in topological presentation), EVERY value type `α`, EVERY formula semantics `f`
+  that reads only declared precedents, and EVERY finite history — by induction over the history, never by sampling.
+-/
+import Pycel.Lemmas.Engine
+import Pycel.Lemmas.EngineInst
+namespace Pycel.Engine
+
+variable {α : Type} {wb : Workbook} {f : Nat → (Nat → α) → α}
+
+/-! ## the main statement -/
+
+/- "after ANY interleaving of set_value and evaluate calls every cell evaluates to exactly the value a from-scratch
+   compile of the same workbook with the current input values produces."
+   `run … s₀ h` = the state after the history `h`; `denote wb f inp a` = the from-scratch value of node `a` at inputs
+   `inp`; `s₀` = any state satisfying the invariant (the three ways of obtaining a model are shown below to do so). -/
+theorem C01_coherence (hwf : WF wb) (hl : Local wb f) (eqv : α → α → Bool) (s₀ : State α) (h₀ : Inv wb f s₀)
+    (h : List (Op α)) (a : Nat) (ha : a < wb.n) :
+    (evaluate wb f a (run wb f eqv s₀ h)).1 = denote wb f (run wb f eqv s₀ h).inp a :=
+  (evaluate_spec hwf hl (run_inv hwf hl eqv h h₀) a).val ha
+
+/- the same, phrased on the list of values the history itself returns: the value returned by an `evaluate` issued
+   after any history is the from-scratch value at the inputs current at that moment. -/
+theorem C01_outputs (hwf : WF wb) (hl : Local wb f) (eqv : α → α → Bool) (s₀ : State α) (h₀ : Inv wb f s₀)
+    (h : List (Op α)) (a : Nat) (ha : a < wb.n) :
+    outputs wb f eqv s₀ (h ++ [.eval a]) =
+      outputs wb f eqv s₀ h ++ [some (denote wb f (run wb f eqv s₀ h).inp a)] := by
+  rw [outputs_append]
+  simp only [outputs]
+  rw [C01_coherence hwf hl eqv s₀ h₀ h a ha]
+
+/- "with the current input values": what the current inputs are.  An accepted `set_value` (a value cell that is in the
+   cell map) makes the written value the current input of that cell and of no other; the proof forces the hypothesis
+   `eqv a b = true → a = b` on the equality test of `set_value` (see `C01_eqv_sound_needed`, `pyEq_not_sound`). -/
+theorem C01_inputs_current (hwf : WF wb) (hl : Local wb f) (eqv : α → α → Bool)
+    (hsound : ∀ a b, eqv a b = true → a = b) (s₀ : State α) (h₀ : Inv wb f s₀) (h : List (Op α)) (i : Nat) (v : α) :
+    (run wb f eqv s₀ (h ++ [.set i v])).inp =
+      if i < wb.n ∧ wb.kind i = .input ∧ (run wb f eqv s₀ h).built i = true
+      then update (run wb f eqv s₀ h).inp i v else (run wb f eqv s₀ h).inp := by
+  rw [run_append]
+  exact setValue_inp hwf hl eqv hsound (run_inv hwf hl eqv h h₀) i v
+
+/- `evaluate` never changes an input. -/
+theorem C01_evaluate_keeps_inputs (hwf : WF wb) (hl : Local wb f) (eqv : α → α → Bool) (s₀ : State α)
+    (h₀ : Inv wb f s₀) (h : List (Op α)) (a : Nat) :
+    (run wb f eqv s₀ (h ++ [.eval a])).inp = (run wb f eqv s₀ h).inp := by
+  rw [run_append]
+  exact (evaluate_spec hwf hl (run_inv hwf hl eqv h h₀) a).inp
+
+/- cells enter the cell map by being evaluated (or by being a precedent of an evaluated cell) and never leave it;
+   `set_value` does not change the cell map. -/
+theorem C01_built_after_evaluate (hwf : WF wb) (hl : Local wb f) (eqv : α → α → Bool) (s₀ : State α)
+    (h₀ : Inv wb f s₀) (h : List (Op α)) (a : Nat) (ha : a < wb.n) :
+    (run wb f eqv s₀ (h ++ [.eval a])).built a = true := by
+  rw [run_append]
+  exact (evaluate_spec hwf hl (run_inv hwf hl eqv h h₀) a).done ha
+
+/-! ## the invariant and its preservation (the induction step) -/
+
+/- reset walk (`_reset`, "stopping at already-empty nodes"): it only clears cache entries, and it removes the
+   violation it was called for without creating any other — `Viol P s m` = "m is cached although one of its precedents
+   is poisoned (P) or is an uncomputed formula/range". -/
+theorem C01_reset_spec (hwf : WF wb) (P : Nat → Prop) (k : Nat) (s : State α) (hb : Bound wb s) :
+    Clears s (resetF wb wb.n k s) ∧ ∀ m, Viol wb P (resetF wb wb.n k s) m → Viol wb P s m ∧ m ≠ k :=
+  resetF_spec hwf P wb.n k s (by omega) hb
+
+theorem C01_setValue_inv (hwf : WF wb) (hl : Local wb f) (eqv : α → α → Bool) (s : State α) (h : Inv wb f s)
+    (i : Nat) (v : α) : Inv wb f (setValue wb eqv i v s) :=
+  setValue_inv hwf hl eqv h i v
+
+theorem C01_evaluate_inv (hwf : WF wb) (hl : Local wb f) (s : State α) (h : Inv wb f s) (a : Nat) :
+    Inv wb f (evaluate wb f a s).2 :=
+  (evaluate_spec hwf hl h a).inv
+
+/-! ## "whichever way the model was obtained" -/
+
+/- "in-memory workbook without stored results" -/
+theorem C01_init_nodata_inv (inp : Nat → α) : Inv wb f (initNoData inp) := initNoData_inv inp
+
+/- ".xlsx file with stored results" — the stored results are those of the file's formulas at the file's inputs -/
+theorem C01_init_stored_inv (inp : Nat → α) (stored : Nat → Option α) (hc : StoredConsistent wb f inp stored) :
+    Inv wb f (initStored inp stored) := initStored_inv inp stored hc
+
+/- "or a deserialized model" -/
+theorem C01_init_loaded_inv (hwf : WF wb) (hl : Local wb f) (inp : Nat → α) : Inv wb f (initLoaded wb f inp) :=
+  (initLoaded_spec hwf hl inp).1
+
+theorem C01_nodata (hwf : WF wb) (hl : Local wb f) (eqv : α → α → Bool) (inp : Nat → α) (h : List (Op α)) (a : Nat)
+    (ha : a < wb.n) :
+    (evaluate wb f a (run wb f eqv (initNoData inp) h)).1 =
+      denote wb f (run wb f eqv (initNoData inp) h).inp a :=
+  C01_coherence hwf hl eqv _ (initNoData_inv inp) h a ha
+
+theorem C01_stored (hwf : WF wb) (hl : Local wb f) (eqv : α → α → Bool) (inp : Nat → α) (stored : Nat → Option α)
+    (hc : StoredConsistent wb f inp stored) (h : List (Op α)) (a : Nat) (ha : a < wb.n) :
+    (evaluate wb f a (run wb f eqv (initStored inp stored) h)).1 =
+      denote wb f (run wb f eqv (initStored inp stored) h).inp a :=
+  C01_coherence hwf hl eqv _ (initStored_inv inp stored hc) h a ha
+
+theorem C01_loaded (hwf : WF wb) (hl : Local wb f) (eqv : α → α → Bool) (inp : Nat → α) (h : List (Op α)) (a : Nat)
+    (ha : a < wb.n) :
+    (evaluate wb f a (run wb f eqv (initLoaded wb f inp) h)).1 =
+      denote wb f (run wb f eqv (initLoaded wb f inp) h).inp a :=
+  C01_coherence hwf hl eqv _ (initLoaded_spec hwf hl inp).1 h a ha
+
+/- the stored results an `.xlsx` written by Excel holds (everything evaluated once) are consistent -/
+theorem C01_stored_by_evaluation (hwf : WF wb) (hl : Local wb f) (eqv : α → α → Bool) (inp : Nat → α) :
+    StoredConsistent wb f inp
+      (run wb f eqv (initNoData inp) ((List.range wb.n).map Op.eval)).cache := by
+  intro j hj hk
+  -- after evaluating every node, node j is cached, and what is cached is the from-scratch value (I1)
+  have hfin := evalAll_spec hwf hl eqv (List.range wb.n) (initNoData inp) (initNoData_inv (wb := wb) (f := f) inp)
+  have hinv := run_inv hwf hl eqv ((List.range wb.n).map Op.eval) (initNoData_inv (wb := wb) (f := f) inp)
+  have hc := hfin.2.2 j (List.mem_range.mpr hj) hj (by rw [hk]; simp)
+  cases hcj : (run wb f eqv (initNoData inp) ((List.range wb.n).map Op.eval)).cache j with
+  | none => exact absurd hcj hc
+  | some v =>
+    have := hinv.i1 j v hcj
+    rw [hfin.1] at this
+    rw [this]; rfl
+
+/-! ## the equality test of `set_value` ("for every Excel scalar written: number, text, logical or blank") -/
+
+/- the hypothesis of `C01_inputs_current` cannot be dropped: a test that identifies two different values loses the
+   write of one over the other (for any workbook with a value cell 0 in the cell map). -/
+theorem C01_eqv_sound_needed (eqv : α → α → Bool) (a b : α) (he : eqv a b = true) (hne : a ≠ b)
+    (s : State α) (ha : s.inp 0 = a) :
+    (setValue wb eqv 0 b s).inp 0 ≠ b := by
+  unfold setValue
+  split
+  · rw [ha, if_pos he, ha]; exact hne
+  · rw [ha]; exact hne
+
+open Pycel.EngineInst in
+/- Python's `!=` (what the unchanged `set_value` uses) is not sound: 0 == False. -/
+theorem pyEq_not_sound : ¬ ∀ a b : EV, pyEq a b = true → a = b := by
+  intro h
+  have := h (.sc (.num 0)) (.sc (.bool false)) (by decide)
+  exact absurd this (by decide)
+
+open Pycel.EngineInst in
+/- the repaired test (same type and same value) is sound. -/
+theorem typedEq_sound : ∀ a b : EV, typedEq a b = true → a = b := by
+  intro a b h
+  simpa [typedEq] using h
+
+open Pycel.EngineInst in
+/- concrete witness against the unchanged test: `A1 = 0`, `set_value(A1, FALSE)` is dropped — the current input stays
+   0, so every dependant keeps showing the value for 0 (pycel: `=A1&"x"` stays "0x"). -/
+theorem C01_pyEq_counterexample :
+    let specs : List Spec := [.inp (.num 0), .fml (.cat [0])]
+    let s := (evaluate (mkWb specs) (sem specs) 1 (initNoData (inputsOf specs))).2
+    (setValue (mkWb specs) pyEq 0 (.sc (.bool false)) s).inp 0 ≠ .sc (.bool false) := by
+  intro specs s
+  exact C01_eqv_sound_needed pyEq (.sc (.num 0)) (.sc (.bool false)) (by decide) (by decide) s rfl
+
+/-! ## the instance the correspondence driver runs (Drv/C01.lean) -/
+
+section Inst
+open Pycel.EngineInst
+
+/- the driver's model — concrete formula language, repaired equality test — is an instance of the theorems above:
+   for every workbook description that passes the run-time check `wfCheck` (the driver refuses any other). -/
+theorem C01_coherence_inst (specs : List Spec) (hwf : wfCheck specs = true) (s₀ : State EV)
+    (h₀ : Inv (mkWb specs) (sem specs) s₀) (h : List (Op EV)) (a : Nat) (ha : a < specs.length) :
+    (evaluate (mkWb specs) (sem specs) a (run (mkWb specs) (sem specs) typedEq s₀ h)).1 =
+      denote (mkWb specs) (sem specs) (run (mkWb specs) (sem specs) typedEq s₀ h).inp a :=
+  C01_coherence (wf_of_check specs hwf) (sem_local specs) typedEq s₀ h₀ h a ha
+
+theorem C01_inputs_current_inst (specs : List Spec) (hwf : wfCheck specs = true) (s₀ : State EV)
+    (h₀ : Inv (mkWb specs) (sem specs) s₀) (h : List (Op EV)) (i : Nat) (v : EV) :
+    (run (mkWb specs) (sem specs) typedEq s₀ (h ++ [.set i v])).inp =
+      if i < (mkWb specs).n ∧ (mkWb specs).kind i = .input ∧
+          (run (mkWb specs) (sem specs) typedEq s₀ h).built i = true
+      then update (run (mkWb specs) (sem specs) typedEq s₀ h).inp i v
+      else (run (mkWb specs) (sem specs) typedEq s₀ h).inp :=
+  C01_inputs_current (wf_of_check specs hwf) (sem_local specs) typedEq typedEq_sound s₀ h₀ h i v
+
+/-! ### non-vacuity: the hypotheses are satisfied by a concrete workbook with inputs, formulas and a range -/
+
+/-- A1 = 0, A2 = "a", A3 = A1&"|"&A2&"|", range A1:A3, A4 = INDEX(A1:A3,3,1) -/
+def demo : List Spec :=
+  [.inp (.num 0), .inp (.str ['a']), .fml (.cat [0, 1]), .rng [[0], [1], [2]], .fml (.idx 3 3 1)]
+
+example : wfCheck demo = true := by decide
+example : WF (mkWb demo) := wf_of_check demo (by decide)
+example : Local (mkWb demo) (sem demo) := sem_local demo
+example : Inv (mkWb demo) (sem demo) (initNoData (inputsOf demo)) := initNoData_inv _
+example : Inv (mkWb demo) (sem demo) (initLoaded (mkWb demo) (sem demo) (inputsOf demo)) :=
+  C01_init_loaded_inv (wf_of_check demo (by decide)) (sem_local demo) _
+example : ∃ stored, StoredConsistent (mkWb demo) (sem demo) (inputsOf demo) stored :=
+  ⟨_, C01_stored_by_evaluation (wf_of_check demo (by decide)) (sem_local demo) typedEq _⟩
+
+/- a history on it, executed by the model: evaluate A4, write FALSE over the 0 in A1, evaluate A4 again — the second
+   value shows the write (with Python's `==` it would not: `C01_pyEq_counterexample`). -/
+example :
+    outputs (mkWb demo) (sem demo) typedEq (initNoData (inputsOf demo))
+      [.eval 4, .set 0 (.sc (.bool false)), .eval 4] =
+    [some (.sc (.str "0|a|".toList)), none, some (.sc (.str "FALSE|a|".toList))] := by decide +kernel
+
+example :
+    outputs (mkWb demo) (sem demo) pyEq (initNoData (inputsOf demo))
+      [.eval 4, .set 0 (.sc (.bool false)), .eval 4] =
+    [some (.sc (.str "0|a|".toList)), none, some (.sc (.str "0|a|".toList))] := by decide +kernel
+
+/-! ### the two other corrections of the model are forced as well (the unchanged code, as a variant) -/
+
+/-- `set_value` as the unchanged code had it (excelcompiler.py 452-461 before the `fix:` commits): the stored results
+    stay in use, and when the written value is blank the reset walk stops at the written cell itself
+    (`if cell.needs_calc: return`).  Only used by the two counterexamples below. -/
+def setValueAsWritten (wb : Workbook) (eqv : α → α → Bool) (isBlank : α → Bool) (i : Nat) (v : α) (s : State α) :
+    State α :=
+  if i < wb.n ∧ wb.kind i = .input ∧ s.built i = true then
+    if eqv (s.inp i) v = true then s
+    else if isBlank v then { s with inp := update s.inp i v }
+    else (succs wb i).foldl (resetStep (resetF wb wb.n)) { s with inp := update s.inp i v }
+  else s
+
+def isBlankEV : EV → Bool
+  | .sc .blank => true
+  | _ => false
+
+/- `set_value(A1, None)` with the walk stopping at the emptied cell: A1 = 5, B1 = A1&"|"; B1 stays "5|". -/
+theorem C01_blank_write_counterexample :
+    let specs : List Spec := [.inp (.num 5), .fml (.cat [0])]
+    let s1 := (evaluate (mkWb specs) (sem specs) 1 (initNoData (inputsOf specs))).2
+    let s2 := setValueAsWritten (mkWb specs) typedEq isBlankEV 0 (.sc .blank) s1
+    (evaluate (mkWb specs) (sem specs) 1 s2).1 ≠ denote (mkWb specs) (sem specs) s2.inp 1 := by
+  decide +kernel
+
+/- `.xlsx` with stored results kept after a write: A1 = 5, B1 = A1&"|" stored "5|"; evaluate(A1), set_value(A1, 7),
+   first evaluate(B1) returns the stored "5|". -/
+theorem C01_stale_stored_counterexample :
+    let specs : List Spec := [.inp (.num 5), .fml (.cat [0])]
+    let wb := mkWb specs
+    let s0 := initStored (inputsOf specs) (fun j => if j = 1 then some (denote wb (sem specs) (inputsOf specs) 1) else none)
+    let s1 := (evaluate wb (sem specs) 0 s0).2
+    let s2 := setValueAsWritten wb typedEq isBlankEV 0 (.sc (.num 7)) s1
+    (evaluate wb (sem specs) 1 s2).1 ≠ denote wb (sem specs) s2.inp 1 := by
+  decide +kernel
+
+end Inst
+
+end Pycel.Engine
